@@ -45,3 +45,18 @@ func wait(timeout time.Duration) {
 		vtime.Sleep(timeout)
 	}
 }
+
+// Shutdown: memberlist.Shutdown closes sockets and waits for its goroutines; serf calls it while
+// holding its state lock. Under the scheduler the real call returns at once; the seam then lets a
+// little virtual time pass (if the harness's horizon allows), so that timers of other calls can
+// expire while a Shutdown is in progress.
+func Shutdown(m *memberlist.Memberlist) error {
+	err := m.Shutdown()
+	if vsched.Active() {
+		wait(ShutdownTakes)
+	}
+	return err
+}
+
+// ShutdownTakes is the virtual duration of memberlist.Shutdown under the scheduler.
+var ShutdownTakes = time.Millisecond
